@@ -277,6 +277,15 @@ def merge_refused(h):
         h.fail('corrected-retry-succeeds', f'retry raised {e2.inst!r}')
 
 
+# "a merged directory that announces itself as complete really contains all parts": inputs that would be moved onto one
+# another (same file name, from a list or from a numbered pattern) are C09's unit; it is an obligation of this property too
+from contracts import C09 as _c09   # noqa: E402
+from pyvc.verify import UNITS as _UNITS   # noqa: E402
+for _u in list(_UNITS.get('C09', [])):
+    if _u.name == 'merge.inputs-with-the-same-file-name':
+        unit('C10', _u.name, _u.func, replay=_u.replay, max_paths=_u.max_paths)(_u.fn)
+
+
 # ------------------------------------------------------------------------------------------------
 def replay_add(payload):
     import os
